@@ -155,6 +155,28 @@ CHECKS['C09'] = dict(cat='other', engine='symnp',
          'approximation polygon reduced from 100 to 8 vertices while exploring (band widened to the sagitta), mixed-axis '
          'circle/ellipse only in the thorough tier; int()/np.intp() of symbolic reals answered by solver enumeration')
 
+CHECKS['C06'] = dict(cat='model_checking', struct=True, engine='symnp (explorer) on the real DataCollection',
+    technique='bounded model checking: solver-enumerated operation sequences on the real collection, invariant + SMT mask equalities after every step',
+    text='From three initial states, every sequence of 4 (thorough 5) operations over append / remove / re-append, new and removed '
+         'subset groups, group state / label (colliding labels) / style changes, merge, clear, extend, AddData / RemoveData commands '
+         'and undo / redo is executed on the real DataCollection, SubsetGroup and CommandStack; after every step each dataset in the '
+         'collection has exactly one subset per live group and no other, groups list exactly those, members share state object, '
+         'label and style, removed datasets and groups keep no membership, and every member mask is proved equal to the group '
+         'selection over symbolic data.', ref='5/C06',
+    note='bounded depth; 3 datasets, up to 3 groups; quick tier uses a reduced operation alphabet (evidence.bounds); save/restore of '
+         'sessions is exercised under C02')
+CHECKS['C13'] = dict(cat='model_checking', struct=True, engine='symnp (explorer) on the real CommandStack',
+    technique='bounded model checking: solver-enumerated do/undo/redo traces on a real Session, snapshots compared structurally and by SMT mask equivalence',
+    text='Every trace of 4 (thorough 5) steps over AddData, RemoveData, ApplySubsetState (each edit mode, with and without '
+         'override_mode), ApplyROI, undo and redo, plus 6-step (thorough 7) undo/redo interleavings after two arbitrary commands: '
+         'after each undo the snapshot (datasets, groups with label and style, membership, edit-subset choice, every subset mask as '
+         'a term over symbolic data) equals the snapshot before the command, after each redo the one after it; a new command clears '
+         'the redo history, can_undo_redo matches the history, and the undo history never exceeds MAX_UNDO (symbolic command count).',
+    ref='5/C13',
+    note='the position of a re-added dataset in the collection is not compared; the edit mode is chosen once per trace (it is '
+         'session state, not a command argument); recorded findings C13/undo-of-group-creation and C13/apply-undo-empty-collection '
+         'are excluded by their witness classes')
+
 NOT_YET = {}
 
 NOT_APPLICABLE = {
